@@ -181,19 +181,23 @@ for _k in range(NCHUNK):
     gen(_ONE.format(k=_k), globals())
 
 
+_TWO = '''
 @cond(timeout=3000, encodes=ENC, tiers=("thorough",),
-      bound="two accessors in sequence (symbolic indices, second one restricted to every 7th pair), with a save in between")
-def two_reads_do_not_change(i: int, j: int, d: int) -> bool:
+      bound="deck variant {d}: two accessors in sequence (symbolic indices: first every 13th pair, second every 11th), with a save in between")
+def two_reads_do_not_change_{d}(i: int, j: int) -> bool:
     """
-    pre: 0 <= i < len(ACCESSORS) and 0 <= j < len(ACCESSORS) and j % 7 == 3 and i % 5 == 1 and 0 <= d < len(DECKS)
+    pre: 0 <= i < len(ACCESSORS) and 0 <= j < len(ACCESSORS) and j % 11 == 3 and i % 13 == 1
     post: _
     """
-    prs = Presentation(M.MemFile(dict(DECKS[d])))
+    prs = Presentation(M.MemFile(dict(DECKS[{d}])))
     objs = _objects(prs)
     _touch(objs[ACCESSORS[i][0]], ACCESSORS[i][1])
     mid = _saved(prs)
     _touch(objs[ACCESSORS[j][0]], ACCESSORS[j][1])
-    return mid == BASELINES[d] and _saved(prs) == BASELINES[d]
+    return mid == BASELINES[{d}] and _saved(prs) == BASELINES[{d}]
+'''
+for _d in range(len(DECKS)):
+    gen(_TWO.format(d=_d), globals())
 
 
 @cond(expect="refute", timeout=600, twin_of="read_does_not_change_0")
